@@ -430,6 +430,11 @@ func checkC03(c *Ctx, r *Report) {
 	compareSpec(c, r, sessionHeaderSpecs, "wire", nil)
 	r.Rule("message-layout", "IPMI message header, body code / IANA placement and the two checksums' ranges equal §13.8", 30)
 	compareSpec(c, r, shapedRequestSpecs, "wire", nil)
+
+	// "the decrypted payload is … a message for exactly the command the caller asked for": the
+	// message layer serialised in the closure is addressed BMC ← console, carries the command's
+	// LUN and operation (rule shared with C06)
+	checkBuildLiterals(c, r)
 }
 
 func evLen(le layoutEvents, name string) string {
